@@ -44,19 +44,11 @@ Definition coll_globs (c : coll) := flat_map globs (layers c).
 Definition coll_ids (c : coll) := flat_map ids (layers c).
 
 (** * The class of stacks
-    [plain l]: no global filter and no vetoing leaf (what a [Filtered] may wrap);
-    [shape l]: a [Filtered] wraps a plain tree; a [Vec] holds no global filter (F8);
-    [novoid l]: no [Vec] is empty (F14). *)
-Fixpoint glob_free (l : layer) : Prop :=
-  match l with
-  | Rec _ _ => True
-  | Glob _ => False
-  | Filt _ l' _ => glob_free l'
-  | Pair o i => glob_free o /\ glob_free i
-  | LOpt None => True
-  | LOpt (Some l') => glob_free l'
-  | LVec ls => fold_right (fun x a => glob_free x /\ a) True ls
-  end.
+    [plain l]: no global filter and no vetoing leaf (what a [Filtered] may wrap: the documentation has it wrap
+    recording layers; a global filter below a [Filtered] would act globally only when that filter passes);
+    [shape l]: every [Filtered] wraps a plain tree.  Anything else is allowed: global filters and vetoing leaves
+    anywhere outside a [Filtered] (also inside a [Vec], whose [register_callsite] combines like its [enabled]
+    since the F8 repair), empty [Vec]s and [None]s, any nesting. *)
 Fixpoint plain (l : layer) : Prop :=
   match l with
   | Rec _ v => forall m, v m = false
@@ -74,18 +66,9 @@ Fixpoint shape (l : layer) : Prop :=
   | Pair o i => shape o /\ shape i
   | LOpt None => True
   | LOpt (Some l') => shape l'
-  | LVec ls => fold_right (fun x a => (glob_free x /\ shape x) /\ a) True ls
+  | LVec ls => fold_right (fun x a => shape x /\ a) True ls
   end.
-Fixpoint novoid (l : layer) : Prop :=               (* no empty Vec anywhere *)
-  match l with
-  | Rec _ _ | Glob _ => True
-  | Filt _ l' _ => novoid l'
-  | Pair o i => novoid o /\ novoid i
-  | LOpt None => True
-  | LOpt (Some l') => novoid l'
-  | LVec ls => ls <> [] /\ fold_right (fun x a => novoid x /\ a) True ls
-  end.
-Definition coll_shape (c : coll) : Prop := Forall (fun l => shape l /\ novoid l) (layers c).
+Definition coll_shape (c : coll) : Prop := Forall shape (layers c).
 
 (** a stack as it is after [build]: the shape above, FilterIds distinct and below 63 (so the bitmap can
     never be all-ones: with exactly 64 filters all rejecting the Registry would veto for plain layers too),
@@ -112,36 +95,109 @@ Definition no_veto (c : coll) (m : meta) : bool :=
 Fixpoint mask_of (ch : list (N * filt)) : N :=
   match ch with [] => 0 | (k, _) :: r => N.lor (fid_new k) (mask_of r) end.
 
+(** filters that do not look at the context: for them acceptance is a function of the metadata alone *)
+Fixpoint ctx_free (f : filt) : Prop :=
+  match f with
+  | FDyn _ => False
+  | FAnd a b | FOr a b => ctx_free a /\ ctx_free b
+  | FNot a => ctx_free a
+  | _ => True
+  end.
+Definition static_accept (ch : list (N * filt)) (m : meta) : bool := forallb (fun e => f_enabled (snd e) m None) ch.
+
 Definition delivered (n : N) (w : what) (out : list obs) : Prop :=
   exists cur sc par nav, In (ODeliver n w cur sc par nav) out.
 Definition delivered_new (n : N) (out : list obs) : Prop :=
   exists id cur sc par nav, In (ODeliver n (WNew id) cur sc par nav) out.
+(** (leaf, span) pairs of the [on_new_span] notifications in an output *)
+Definition news_of (out : list obs) : list (N * N) :=
+  flat_map (fun o => match o with ODeliver n (WNew id) _ _ _ _ => [(n, id)] | _ => [] end) out.
+(** every notification in [out] is about [w] *)
+Definition only (w : what) (out : list obs) : Prop :=
+  forall n w' cur sc par nav, In (ODeliver n w' cur sc par nav) out -> w' = w.
+Definition alive (st : state) (id : N) : Prop := sp_get st id <> None.
 
-(** the global max level is sound: above it nobody accepts anything, whatever the context *)
-Definition HintSound (c : coll) (mx : N) : Prop :=
-  forall m st, mx < m_level m ->
-    forall r, In r (coll_recs c) -> globals_accept c st m && chain_accept st 0 (snd r) m = false.
+(** the global max level is sound: above it nobody accepts anything, whatever the context
+    (the static summaries are property C08; the model takes the level as a parameter of a run) *)
+Definition HintSound (c : coll) (mx : N) (pool : list meta) : Prop :=
+  forall cs st, mx < m_level (meta_of pool cs) ->
+    forall r, In r (coll_recs c) -> globals_accept c st (meta_of pool cs) && chain_accept st 0 (snd r) (meta_of pool cs) = false.
 
-(** what one operation owes to every leaf *)
-Definition step_spec (c : coll) (pool : list meta) (st : state) (o : op) (out : list obs) : Prop :=
+(** what one operation owes to every leaf.  [past]: the (leaf, span) pairs of all earlier [on_new_span]
+    notifications; [st] / [st'] the state before / after. *)
+Definition follow_spec (c : coll) (past : list (N * N)) (st' : state) (w : what) (id : N) (out : list obs) : Prop :=
+  alive st' id ->
+  forall r, In r (coll_recs c) -> (delivered (fst (fst r)) w out <-> In (fst (fst r), id) past).
+Definition close_spec (c : coll) (past : list (N * N)) (out : list obs) : Prop :=
+  forall id r, In r (coll_recs c) ->
+    (delivered (fst (fst r)) (WClose id) out <-> In (OCall (PClose id)) out /\ In (fst (fst r), id) past).
+Definition closes_or (w : what) (out : list obs) : Prop :=
+  forall n w' cur sc par nav, In (ODeliver n w' cur sc par nav) out -> w' = w \/ exists id, w' = WClose id.
+
+Definition step_spec (c : coll) (pool : list meta) (st : state) (past : list (N * N)) (o : op) (out : list obs) (st' : state) : Prop :=
   match o with
   | OEvent cs =>
       let m := meta_of pool cs in
+      only (WEvent cs) out /\
       forall r, In r (coll_recs c) ->
         (delivered (fst (fst r)) (WEvent cs) out <->
          globals_accept c st m && no_veto c m && chain_accept st 0 (snd r) m = true)
   | OSpan cs =>
       let m := meta_of pool cs in
+      only (WNew (st_next st)) out /\
       forall r, In r (coll_recs c) ->
-        (delivered_new (fst (fst r)) out <-> globals_accept c st m && chain_accept st 0 (snd r) m = true)
-  | _ => True
+        (delivered (fst (fst r)) (WNew (st_next st)) out <-> globals_accept c st m && chain_accept st 0 (snd r) m = true)
+  | OEnter h =>
+      match handle st h with
+      | Some id => only (WEnter id) out /\ follow_spec c past st' (WEnter id) id out
+      | None => out = []
+      end
+  | ORecord h =>
+      match handle st h with
+      | Some id => only (WRecord id) out /\ follow_spec c past st' (WRecord id) id out
+      | None => out = []
+      end
+  | OExit h =>
+      match handle st h with
+      | Some id => closes_or (WExit id) out /\ follow_spec c past st' (WExit id) id out /\ close_spec c past out
+      | None => out = []
+      end
+  | ODrop h =>
+      match handle st h with
+      | Some id => closes_or (WClose id) out /\ close_spec c past out
+      | None => out = []
+      end
+  | OProbe _ => forall n w, ~ delivered n w out
   end.
 
 (** every step of a run meets its specification *)
-Fixpoint run_spec (c : coll) (mx : N) (pool : list meta) (st : state) (h : list op) : Prop :=
+Fixpoint run_spec (c : coll) (mx : N) (pool : list meta) (st : state) (past : list (N * N)) (h : list op) : Prop :=
   match h with
   | [] => True
   | o :: r =>
       let '(st1, out, _) := step c mx pool st o in
-      step_spec c pool st o out /\ run_spec c mx pool st1 r
+      step_spec c pool st past o out st1 /\ run_spec c mx pool st1 (past ++ news_of out) r
+  end.
+
+(** [Clean] from an arbitrary state (Model.clean is [clean_from init]) *)
+Definition clean_from (c : coll) (mx : N) (pool : list meta) (st : state) (h : list op) : bool :=
+  forallb negb (snd (run c mx pool st h)).
+
+(** what a leaf may see of the span tree inside a callback: only spans it was told about *)
+Definition mentions (o : obs) : list N :=
+  match o with
+  | ODeliver _ _ cur sc par nav =>
+      (match cur with Some x => [x] | None => [] end) ++ sc ++ (match par with Some x => [x] | None => [] end) ++
+      flat_map (fun e => (match fst e with Some x => [x] | None => [] end) ++ snd e) nav
+  | _ => []
+  end.
+Definition leaf_of (o : obs) : option N := match o with ODeliver n _ _ _ _ _ => Some n | _ => None end.
+Definition sees_only_own (past : list (N * N)) (out : list obs) : Prop :=
+  forall o n id, In o out -> leaf_of o = Some n -> In id (mentions o) -> In (n, id) (past ++ news_of out).
+Fixpoint run_lookup (c : coll) (mx : N) (pool : list meta) (st : state) (past : list (N * N)) (h : list op) : Prop :=
+  match h with
+  | [] => True
+  | o :: r =>
+      let '(st1, out, _) := step c mx pool st o in
+      sees_only_own past out /\ run_lookup c mx pool st1 (past ++ news_of out) r
   end.
